@@ -127,6 +127,62 @@ class C02(Prop):
         if rc != 0 or len(outs) != rounds or fails:
             return [("stress", "free-running stress of RecorderOnceCell violated the property: " + (fails[0] if fails else "driver failed"),
                      dict(command="echo 'STRESS 4 3 3000' | .cache/target/release/c02", observed=fails[:5], stderr=err[-500:]))]
+        return self.global_engine(ctx)
+
+    def global_engine(self, ctx):
+        """the REAL global recorder end to end (metrics::set_global_recorder + with_recorder), one
+        script per process: sequential installs / emissions on the main thread and on fresh threads,
+        and a parallel phase (emitters vs further losing installs).  Judged by the property: the
+        first install wins, every other attempt hands its own recorder back intact, emissions before
+        it go to the no-op recorder, every emission after it reaches the winner, on every thread."""
+        from .core import run_impl
+        rng = ctx["rng"].fork()
+        n = 16 if ctx["tier"] == "quick" else 150
+        scripts = [["E", "I1", "E", "I2", "E", "F", "J3", "F", "E", "P3"], ["F", "J1", "F", "E", "I2", "E", "P2", "I3", "E"]]
+        for _ in range(n - len(scripts)):
+            ops, r = [], 1
+            for _ in range(rng.range(4, 12)):
+                k = rng.below(10)
+                if k < 3:
+                    ops.append("%s%d" % (rng.pick("IJ"), r)); r += 1
+                elif k < 9:
+                    ops.append(rng.pick("EF"))
+                elif any(o[0] in "IJ" for o in ops):
+                    ops.append("P%d" % rng.range(2, 4))     # the parallel phase's extra installs must be losers
+                else:
+                    ops.append("%s%d" % (rng.pick("IJ"), r)); r += 1
+            scripts.append(ops)
+        bad = []
+        for ops in scripts:
+            rc, outs, err = run_impl(ctx["binpath"], ["GLOBAL " + " ".join(ops)], timeout=120)
+            toks = outs[0].split() if outs else []
+            winner, problem = None, None
+            if rc != 0 or len(toks) != len(ops):
+                problem = "driver failed: rc=%s %s" % (rc, err[-300:])
+            for op, t in zip(ops, toks):
+                if problem:
+                    break
+                if op[0] in "IJ":
+                    if winner is None:
+                        if t != "K" + op[1:]:
+                            problem = "first installation %s did not succeed: %s" % (op, t)
+                        winner = op[1:]
+                    elif t != "X" + op[1:]:
+                        problem = "installation %s after a successful one returned %s (must fail and hand its own recorder back intact)" % (op, t)
+                elif op[0] in "EF":
+                    want = "N" if winner is None else "V" + winner
+                    if t != want:
+                        problem = "emission (%s) was dispatched to %s, expected %s" % (op, t, want)
+                elif op[0] == "P":
+                    if winner is not None and t != "P0":
+                        problem = "parallel phase: %s emissions/installs misbehaved" % t[1:]
+            if problem:
+                bad.append(dict(script=" ".join(ops), observed=" ".join(toks), problem=problem))
+        ctx["coverage"]["global_recorder_scripts"] = len(scripts)
+        ctx["coverage"]["global_recorder_sample"] = " ".join(scripts[0])
+        if bad:
+            return [("global", "the real global recorder (set_global_recorder / with_recorder) violated the property: " + bad[0]["problem"],
+                     dict(command="echo 'GLOBAL %s' | .cache/target/release/c02" % bad[0]["script"], failing=bad[:3]))]
         return []
 
 
